@@ -35,6 +35,11 @@ var c01Sinks = []c01Sink{
 		return `<p title="` + pre + `{{ nope | default(x) }}` + post + `">t</p>`
 	}, true},
 	{"attr-interp", func(pre, post string) string { return `<p title="` + pre + `{{ x }}` + post + `">t</p>` }, true},
+	// the SAME placeholder several times in one text run / one attribute value (each occurrence is the value, written once more)
+	{"text-repeated", func(pre, post string) string { return "<p>" + pre + "{{ x }}" + post + "</p><q>{{ x }} wrote: {{ x }} ({{ x }})</q>" }, false},
+	{"attr-repeated", func(pre, post string) string {
+		return `<p title="` + pre + `{{ x }}` + post + `">t</p><a class="btn-{{ x }} icon-{{ x }}" data-k="{{ kk }}-{{ kk }}">l</a>`
+	}, true},
 	{"attr-bound", func(pre, post string) string { return `<p :title="x">t</p>` }, true},
 	{"attr-bound-interp", func(pre, post string) string { return `<p :title="` + pre + `{{ x }}` + post + `">t</p>` }, true},
 	// attribute NAMES other than title (the serialiser treats every name alike): data-*, href, value, alt; values that are JSON documents
